@@ -21,6 +21,15 @@ def defaultQueue : String := Facts.c03_defaultQueueLiterals.headD ""
 def convQueue (v0 : Bool) (setting : String) : String :=
   if v0 then defaultQueue else if setting == "" then defaultQueue else setting
 
+/-- the version-1 converter of a `kubernetes` binding, the two keys it reads next to each other
+(`config_v1.go`, `ConvertAndCheck`): `if kubeCfg.Queue == "" { Queue = "main" } else { Queue = kubeCfg.Queue }`
+and `WaitForSynchronization = true; if kubeCfg.WaitForSynchronization == "false" && kubeCfg.Queue != "" { … = false }`.
+`queue`, `wfs` = the values as written ("" = key absent). -/
+def convKube (queue wfs : String) : String × Bool :=
+  let q := if queue == "" then defaultQueue else queue
+  let w := if wfs == "false" && queue != "" then false else true
+  (q, w)
+
 /-- a schedule binding as written in a hook configuration, plus the entry id the loader makes up -/
 structure SchedBinding where
   name : String
